@@ -220,6 +220,28 @@ def vectorised_equals_per_unit(ctx, op, shape):
             ctx.ensure_eq(f'unit{idx}_{j}', np.asarray(w_)[idx], p_, tol=1e-6)
 
 
+@rcontract(P, "isometries_from_homogeneous_points", instances=[dict(op="origin_to", shape=(2,))],
+           thorough=[dict(op="origin_to", shape=(3,)), dict(op="origin_to", shape=(1, 2))], timeout=150.0, max_paths=80, bounded_n=(6, 30),
+           functions=[HY + "Point.origin_to", U + "find_isometry", U + "indefinite_orthogonalize", U + "make_orientation_preserving", U + "normalize"])
+def isometries_from_homogeneous_points(ctx, op, shape):
+    """origin_to on a composite given by arbitrary timelike homogeneous representatives (either sheet, any scale, mixed
+    within one composite: this is what applying O(n,1) elements produces): f(X)[i] = f(X[i])"""
+    n = 2
+    shape = tuple(shape)
+
+    def samp(r):
+        sp = r.uniform(-1, 1, shape + (n,)) / np.sqrt(n)
+        t = r.uniform(1.2, 3, shape + (1,)) * r.choice([-1.0, 1.0], size=shape + (1,))
+        return np.concatenate([t, sp], axis=-1) * r.uniform(0.5, 2, shape + (1,))
+    x = ctx.reals('x', shape + (n + 1,), samp)
+    ctx.assume(spec.mink(x, x), '<', 0)
+    whole = h.Point(np.array(x, copy=True)).origin_to().proj_data
+    ctx.ensure_true('shape', np.shape(whole) == shape + (n + 1, n + 1), f"{np.shape(whole)}")
+    for idx in np.ndindex(*shape):
+        part = h.Point(np.array(x[idx], copy=True)).origin_to().proj_data
+        ctx.ensure_eq(f'unit{idx}', np.asarray(whole)[idx], part, tol=1e-6)
+
+
 @bounded(P, "sampling", functions=[U + "matrix_product", PR + "Transformation.apply", HY + "Isometry._fixpoint_data", HY + "Isometry.fixed_point"],
          note="rank-3 composite shapes, all classes, fixed points (numpy.linalg.eig) per unit, random values")
 def sampling(tier, rng, rep):
@@ -245,7 +267,7 @@ def sampling(tier, rng, rep):
             for idx in np.ndindex(*outer):
                 io, it = (idx[:len(so)], idx[len(so):]) if mode == "pairwise" else (idx[len(st):], idx[:len(st)])
                 u = pr.Transformation(Tm.proj_data[it]) @ pr.Polygon(X.proj_data[io])
-                if np.max(np.abs(R.proj_data[idx] - u.proj_data)) > 1e-9 or np.max(np.abs(R.aux_data[idx] - u.aux_data)) > 1e-9:
+                if not np.all(np.abs(R.proj_data[idx] - u.proj_data) <= 1e-9) or not np.all(np.abs(R.aux_data[idx] - u.aux_data) <= 1e-9):
                     rep.fail("pairwise_entries", f"index {idx}", inp)
             rep.case(key=(t, mode), nontrivial=(len(outer) >= 2 or 1 in outer), sample=inp if t == 0 else None)
         # circle parameters (centre, radius, angle pair) of a composite of segments vs unit by unit, both conformal models
@@ -270,7 +292,7 @@ def sampling(tier, rng, rep):
                     for j in range(kk):
                         cj, rj, tj = h.Segment(h.Point(ka[j].copy(), model="klein"), h.Point(kb[j].copy(), model="klein")).circle_parameters(model=model, degrees=deg)
                         sc = 1 + abs(rj)
-                        if np.max(np.abs(c[j] - cj)) > 1e-9 * sc or abs(r[j] - rj) > 1e-9 * sc or np.max(np.abs(th[j] - tj)) > 1e-9 * (360 if deg else 7):
+                        if not np.all(np.abs(c[j] - cj) <= 1e-9 * sc) or not (abs(r[j] - rj) <= 1e-9 * sc) or not np.all(np.abs(th[j] - tj) <= 1e-9 * (360 if deg else 7)):
                             rep.fail("circle_parameters_per_unit", f"unit {j}: angles {th[j]} vs {tj}", inp); return
                 rep.attempt("circle_parameters_run", inp, cp)
                 rep.case(key=(t, "cp", model, deg), nontrivial=True)
@@ -288,6 +310,6 @@ def sampling(tier, rng, rep):
         if fp is not None:
             for j in range(k):
                 uj = h.Isometry(np.array(isos[j])).fixed_point().coords("klein")
-                if np.max(np.abs(fp[j] - uj)) > 1e-6:
+                if not np.all(np.abs(fp[j] - uj) <= 1e-6):
                     rep.fail("fixed_point_per_unit", f"unit {j}: {fp[j]} vs {uj}", inp)
             rep.case(key=(t, "fix"))
